@@ -79,6 +79,14 @@ CHECKS = {
          "Generated-program search over the full grammar accepted by the fork's parser (all operators and precedences, unary minus, postfix ?, try without catch, reduce/foreach/label/break, nested defs, import/include directives, string interpolation, format strings, object shorthand, fq literal extensions, redundant/dropped parentheses, comments): (1) _query_fromstring | _query_tostring | _query_fromstring equals the first AST; (2) original and printed text give the same observable on raw gojq; (3) _eval_query_rewrite with harness input/output/catch queries named like user functions (tojson, debug, error) behaves as the literal program `try (IN | (P) | OUT) catch C` on gojq, for six wrapper configurations.",
          "Trusted: raw gojq, lib/jqgen's precedence-exact printer. The fork's own printer lives outside /repo and cannot be mutated there; oracle (2) is what would see a wrong parenthesis in it. One finding (slurp/help/repl hijack of user-defined functions) is listed known.",
          "DESIGN.md 2/C11"),
+ "C05": ("every value of corpus/mutant/generated/container trees: tobits/tobytes/renderings compared with the harness's own read of the buffer",
+         "Generated-input search: for every value (incl. unaligned fields, gaps, nested buffer roots) of corpus trees (2452 pairs), sampled mutants, generated decoder programs and gzip/zip containers written by the Go standard library (nested buffer content known from the writer), tobits must be exactly buffer[InnerRange], tobytes the same bits left-padded with zeros, the root the whole input (also raw on stdout through the CLI), and every bits_format rendering (string, hex, base64, byte_array, md5, truncate, snippet) must encode those bits, checked against harness encoders; the tree is wrapped as the jq value fq itself would return (lib/treeq) and fed to one long-running evaluation.",
+         "Trusted: the harness's bit extraction and encoders (crypto/md5, own hex/base64), lib/treeq's wrapping through exported constructors. ._bits/._bytes raw output is not asserted (the statement pads only the tobytes form).",
+         "DESIGN.md 2/C05"),
+ "C12": ("every value of corpus/mutant/generated trees: path resolution by pointer identity, parent/root navigation vs an independent upward walk, path<->expression round trip",
+         "Generated-input search: for every value (1.2M per quick run) of corpus trees, mutants and generated decoder programs, root | getpath(value's topath) must be the same node (pointer identity of the underlying *decode.Value), the last path element its name/index, parent/parents/root/buffer_root/format_root must equal an independent upward walk, and path_to_expr of the path must parse (embedded gojq) back to it and, for a sample, reach the node through eval/expr_to_path; rapid-generated path arrays (arbitrary unicode, quotes, backslashes, keywords, digits, empty keys, negative and huge indexes) must survive path_to_expr | expr_to_path.",
+         "Trusted: the Go-side tree walk and pointer identity, gojq's parser for reading expressions back. eval/expr_to_path on tree paths are sampled (20 ms each).",
+         "DESIGN.md 2/C12"),
 }
 
 NOT_YET = {}
